@@ -2,7 +2,8 @@
 //! Rules are written in GRL, parsed by the real parser and converted by the real loader (hook H4
 //! hands back the converted rule so that its action closure can be wrapped in a recorder).
 use crate::explore::{self, Config, Mismatch, System};
-use crate::report::{hstr, Report};
+use crate::report::{hstr, Report, Violation};
+use std::time::Instant;
 use crate::{Opts, Tier};
 use rust_rule_engine::parser::grl::GRLParser;
 use rust_rule_engine::rete::facts::{FactValue, TypedFacts};
@@ -477,8 +478,51 @@ impl System for Sys {
     }
 }
 
+/// One long-lived engine: the same short cycle (update the fact, fire_all, reset) repeated far more often than any
+/// per-call bound; every round must fire the rule for the live satisfying fact. Returns the first failing round.
+fn long_lived(rounds: usize, rs: usize) -> Option<(usize, Vec<String>)> {
+    let mut s = Sys::new(rs, 1, &[5]);
+    let h = s.eng.insert(s.types[0].to_string(), s.data(5));
+    for round in 0..rounds {
+        let _ = s.eng.update(h, s.data(5));
+        let fired = s.eng.fire_all();
+        let want: Vec<String> = s.specs.iter().filter(|r| r.ty == s.types[0] && holds(r.op, 5, r.rhs)).map(|r| r.name.to_string()).collect();
+        let mut f2 = fired.clone();
+        f2.sort();
+        let mut w2 = want.clone();
+        w2.sort();
+        if f2 != w2 {
+            return Some((round, fired));
+        }
+        s.eng.reset();
+    }
+    None
+}
+
+fn run_long_lived(opts: &Opts) -> Report {
+    let t0 = Instant::now();
+    let mut rep = Report::new("long_lived_engine");
+    let rounds = if opts.tier == Tier::Quick { 2500 } else { 20_000 };
+    for rs in [0usize, 1] {
+        rep.count("evaluations", rounds as u64);
+        let case = json!({"sub": "long_lived_engine", "rule_set": rs, "rounds": rounds});
+        match std::panic::catch_unwind(|| long_lived(rounds, rs)) {
+            Err(_) => rep.violation(Violation { class: "panic".into(), detail: explore::take_panic(), tags: vec![], case }),
+            Ok(Some((round, fired))) => rep.violation(Violation { class: "satisfied_rule_did_not_fire".into(), detail: format!("round {} of update / fire_all / reset on one engine: fire_all returned {:?} although the live fact satisfies the rule(s)", round, fired), tags: vec!["long_lived_engine".into()], case }),
+            Ok(None) => rep.count("nontrivial", 1),
+        }
+    }
+    rep.sample(json!({"history": "insert T0{v:5}; then 2500 x (update T0{v:5}; fire_all; reset)"}));
+    rep.bound = format!("{} rounds of (update, fire_all, reset) on one engine for each of the first two rule sets: every round fires the satisfied rules", rounds);
+    rep.wall_s = t0.elapsed().as_secs_f64();
+    rep
+}
+
 pub fn run(opts: &Opts) -> Vec<Report> {
     let mut out = vec![];
+    if crate::props::wants(opts, "long_lived_engine") {
+        out.push(run_long_lived(opts));
+    }
     let (depth, max_facts, values): (usize, usize, Vec<i64>) = match opts.tier {
         Tier::Quick => (6, 4, vec![0, 5]),
         Tier::Thorough => (7, 4, vec![0, 2, 5]),
@@ -503,6 +547,13 @@ pub fn run(opts: &Opts) -> Vec<Report> {
 }
 
 pub fn replay(case: &serde_json::Value) -> crate::props::ReplayResult {
+    if case["sub"].as_str() == Some("long_lived_engine") {
+        let hist = vec![case.to_string()];
+        return match long_lived(case["rounds"].as_u64().unwrap_or(2500) as usize, case["rule_set"].as_u64().unwrap_or(0) as usize) {
+            None => Ok(hist),
+            Some((round, fired)) => Err((hist, "satisfied_rule_did_not_fire".into(), format!("round {}: fire_all returned {:?}", round, fired))),
+        };
+    }
     let rs = case["ctx"]["rule_set"].as_u64().unwrap_or(0) as usize;
     let mf = case["ctx"]["max_facts"].as_u64().unwrap_or(3) as usize;
     let vals: Vec<i64> = case["ctx"]["values"].as_array().map(|a| a.iter().filter_map(|x| x.as_i64()).collect()).unwrap_or_else(|| vec![0, 5]);
